@@ -1,10 +1,10 @@
 #!/bin/bash
-# builds branch <name> in scratch worktree <dir> from /repo HEAD by applying fixes/series2.txt in order; stops at the first failure
+# builds branch <name> in scratch worktree <dir> from /repo HEAD by applying fixes/${SERIES:-/verif/fixes/series2.txt} in order; stops at the first failure
 set -u
 dir=${1:-/tmp/fixwt}; br=${2:-fixes2}; P=/verif/fixes/proposed
 git -C /repo worktree remove --force "$dir" 2>/dev/null; git -C /repo branch -D "$br" 2>/dev/null
 git -C /repo worktree add -q -b "$br" "$dir" HEAD || exit 1
-grep -v '^#' /verif/fixes/series2.txt | while IFS='|' read -r f msg; do
+grep -v '^#' ${SERIES:-/verif/fixes/series2.txt} | while IFS='|' read -r f msg; do
   [ -z "$f" ] && continue
   if git -C "$dir" apply "$P/$f" 2>/dev/null || (cd "$dir" && patch -s -p1 < "$P/$f"); then
     git -C "$dir" commit -qam "$msg" && echo "OK   $f"
